@@ -23,10 +23,28 @@ E. Guarded collections against a reference: random dtml-in loops (objects / stri
    one — allowed items in the order the author asked for, filtered → sorted → reversed (tree) resp. sorted → reversed →
    window → filtered (in) — computed here from the option's documented meaning; without skip_unauthorized a refused item
    that would be displayed must raise Unauthorized.
+F. Formats: <dtml-var … fmt=F [null=N]> for every kind of format (every method of the value, names the value does not have,
+   the special formats, the empty format, valid C-style formats, strings that are NOT valid C-style formats for the value such
+   as strftime directives, random %-strings) × every kind of value (spied objects with date-like methods, number-like,
+   falsy, real datetime.date subclasses, plain text / numbers) × every way the value gets there (name, expression, attribute of
+   a with-object, loop item) × guard refuses all methods / none.  Expected from the documented meaning of fmt= written in
+   plain Python (method of the value through the guard → special format → '' → Python's own `F % value`); every attribute of
+   the value that is read must have been asked of the guard, a refused method is never called.
+G. Two template classes in one rendering: every channel of A with a call of ANOTHER document template spliced in before every
+   tag of the channel's source — the other template is of a class without guards (HTML, String), of a class with a guard of
+   its own that allows everything, a plain one that itself renders a third one, or (control) of the caller's class; it is
+   rendered by name, by expression (with and without a client of its own), by dtml-call / dtml-if / dtml-let, below a
+   dtml-with namespace, or as the header / footer / leaves / expand document of a dtml-tree; it is static text, reads its own
+   client, has blocks of its own, raises, returns, or reads guarded data itself.  After the call the caller reads refused
+   data through an expression, a with-object, a loop and fmt=.  Expected = the caller's source with the call replaced by the
+   sub-template's text (a fresh object of the caller's class alone); the guards of the class that was CALLED by the
+   application stay in force for the whole rendering (markers, "every read asked").
 C. Correspondence: random programs with a recording guard, random refused (object, attribute) pairs and refused items,
    skip_unauthorized: results, call traces AND the ordered guard log (attribute guard / item guard events) of the real
-   classes vs the Lean interpreter model.
+   classes vs the Lean interpreter model.  A second slice renders the same kind of programs with the sub-templates being
+   of a class without guards / with another guard (the model has ONE guard per rendering: that of the template called).
 """
+import datetime
 import json
 import re
 import threading
@@ -240,6 +258,13 @@ def channels():
                                                           set(), {1, 6}))(deep, cont)
                 ch['tree-skip' + tag] = ('<dtml-tree o %s skip_unauthorized>%s</dtml-tree>' % (opt, body), mk, None)
                 ch['tree-refused-item' + tag] = (T % ('<dtml-tree o %s>%s</dtml-tree>' % (opt, body)), mk, None)
+    # dtml-tree without a name starts at `this`, the client of the template that was called
+    ch['tree-this-skip'] = ('<dtml-tree skip_unauthorized>%s</dtml-tree>' % body,
+                            lambda log, m, n: (forest(log, m, n), tree_ns(), set(), {1, 6}), None)
+    ch['tree-this-refused-item'] = (T % ('<dtml-tree sort=key>%s</dtml-tree>' % body),
+                                    lambda log, m, n: (forest(log, m, n), tree_ns(), set(), {1, 6}), None)
+    ch['tree-this-client-tuple'] = ('<dtml-tree skip_unauthorized reverse>%s</dtml-tree>|<dtml-var pub2>' % body,
+                                    lambda log, m, n: ((Spy(2, log, pub2='q'), forest(log, m, n)), tree_ns(), set(), {1, 6}), None)
     ch['tree-branches-attr'] = (T % ('<dtml-tree o>%s</dtml-tree>' % body),
                                 lambda log, m, n: (None, tree_ns(o=forest(log, m, n)), {(9, 'tpValues')}, set()), None)
     ch['tree-branches-attr below'] = (T % ('<dtml-tree o>%s</dtml-tree>' % body),
@@ -587,6 +612,397 @@ def part_e(res, r, tier):
                                         'what': c['source'] + mode_text(mode) + ': ' + '; '.join(sorted(set(problems))[:4])})
 
 
+# --------------------------------------------------------------------------- F: every kind of format x every kind of value
+
+METHODS = ('strftime', 'isoformat', 'ctime', 'timeTime', 'Date', 'title', 'format', 'keys', 'values', 'upper', 'lower', 'capitalize',
+           'split', 'strip', 'replace', 'quoted', 'html_quote', 'url_quote')
+
+
+class MethodSpy(Spy):
+    """a value with date-like / text-like / record-like methods; each of them is a data attribute (spied) and records its call"""
+    _truth = True
+    _number = None
+
+    def __init__(self, oid, log, secret):
+        def method(name):
+            def call(*args):
+                log.append(('called', oid, name))
+                return '%s-%s' % (secret, name)
+            return call
+        Spy.__init__(self, oid, log, **{name: method(name) for name in METHODS})
+
+    def __bool__(self):
+        return type(self)._truth
+
+    __repr__ = Spy.__str__      # %a / %r formats: no addresses
+
+
+class FalsySpy(MethodSpy):
+    _truth = False
+
+
+class NumSpy(MethodSpy):
+    """usable by the numeric conversions of a C-style format (the number itself is public)"""
+
+    def __float__(self):
+        return 12.5
+
+    def __int__(self):
+        return 12
+
+    __index__ = __int__
+
+
+class SpyDate(Spy, datetime.date):
+    """a real date (what database adapters deliver) whose str() says nothing: its methods tell when"""
+    SPIED = ('strftime', 'isoformat', 'ctime', 'isocalendar', 'toordinal', 'weekday', 'isoweekday', 'timetuple')
+
+    def __new__(cls, oid, log, secret):
+        return datetime.date.__new__(cls, *secret)
+
+    def __init__(self, oid, log, secret):
+        Spy.__init__(self, oid, log)
+        object.__setattr__(self, '_names', set(self.SPIED))
+
+    def __str__(self):
+        return 'spy-date'
+
+    __repr__ = __str__
+
+
+VALUE_KINDS = {
+    # kind -> (constructor(oid, log, secret) or a plain value, its spied methods, secret for marker -> constructor argument)
+    'when': (MethodSpy, METHODS, lambda m: m),
+    'number-like': (NumSpy, METHODS, lambda m: m),
+    'falsy': (FalsySpy, METHODS, lambda m: m),
+    'date': (SpyDate, SpyDate.SPIED, lambda m: (2031, 12, 24) if m == MARK_A else (1999, 7, 5) if m == MARK_B else (2000, 1, 1)),
+    'text': ('abc', (), None), 'empty-text': ('', (), None), 'float': (12.5, (), None), 'int': (7, (), None), 'none': (None, (), None),
+}
+DATE_SECRETS = ('2031', '1999', '24.12', '12/24', '05.07', '07/05', 'Dec', 'Jul', '-12-', '-07-')
+
+SPECIAL_FORMATS = ('whole-dollars', 'dollars-and-cents', 'collection-length', 'html-quote', 'url-quote', 'url-quote-plus', 'multi-line',
+                   'comma-numeric', 'dollars-with-commas', 'dollars-and-cents-with-commas', 'sql-quote', 'url-unquote')
+C_FORMATS = ('%s', '[%s]', '%5s|', '%-6s|', '%d', '%.2f', '%x', '%e', '%5.1f%%', '%c', '%i items', '%%', 'no conversion at all')
+# strings an author means as a date format: not attribute names, not special formats, (mostly) not valid C-style formats
+DATE_FORMATS = ('%d.%m.%Y', '%m/%d/%Y', '%b %Y', '%Y-%m-%d', '%H:%M', '%A, %d. %B %Y', '%j', '%y%m%d', '%d', '%Y', '%', '%d %', '%Q',
+                '%-d.%-m.', '%e %b', '%x', '%c', '%X')
+FORMAT_FORMS = {
+    # how the value gets to the tag: (source with FMT, namespace(value, log))
+    'name': ('<dtml-var v FMT>', lambda v, log: {'v': v}),
+    'expr': ('<dtml-var "v" FMT>', lambda v, log: {'v': v}),
+    'with-attr': ('<dtml-with c><dtml-var v FMT></dtml-with>', lambda v, log: {'c': Spy(2, log, v=v)}),
+    'expr-attr': ('<dtml-var "c.v" FMT>', lambda v, log: {'c': Spy(2, log, v=v)}),
+    'in-item': ('<dtml-in l><dtml-var sequence-item FMT></dtml-in>', lambda v, log: {'l': [v]}),
+    'let': ('<dtml-let w=v><dtml-var w FMT></dtml-let>', lambda v, log: {'v': v}),
+}
+
+
+# the other options of dtml-var work on the TEXT of the value (str()), never on attributes of the value: option -> text -> text
+# (None: not decided here, C15 owns the values; the reads and the markers are still judged)
+VAR_OPTIONS = {
+    'upper': str.upper, 'lower': str.lower, 'capitalize': lambda t: t[:1].upper() + t[1:], 'spacify': lambda t: t.replace('_', ' '),
+    'html_quote': lambda t: t, 'url_quote': lambda t: t, 'url_quote_plus': lambda t: t, 'newline_to_br': lambda t: t,
+    'size=3 etc="~"': lambda t: t if len(t) <= 3 else t[:3] + '~', 'upper html_quote size=2 etc=""': lambda t: t.upper()[:2],
+    'thousands_commas': None, 'sql_quote': None, 'url_unquote': None, 'url_unquote_plus': None,
+    'missing="M" upper': str.upper, 'null="-" lower': None,
+}
+
+
+def random_format(r):
+    """%-strings: conversions CPython's % knows, strftime directives it does not, flags, widths, separators, a lone % at the end"""
+    parts = []
+    for _ in range(r.randint(1, 4)):
+        parts.append('%' + r.choice(['', '', '-', '0', '5', '.2', '#']) + r.choice('dmYHMSbBaAjyIpZUwWcxXsfegiouQ%'))
+        parts.append(r.choice(['', '.', '/', '-', ':', ' ', ', ', 'T']))
+    if r.random() < 0.1:
+        parts.append('%')
+    return ''.join(parts)
+
+
+def format_reference(kind, fmt, null, refuse):
+    """the documented meaning of <dtml-var v fmt=F null=N>, in plain Python on a value of its own: null for a false value that
+    is not 0; F names an attribute of the value -> that method, obtained through the guard; a special format (not decided
+    here: None); the empty format -> ''; otherwise the C-style format F % value"""
+    ctor, spied, secret = VALUE_KINDS[kind]
+    v = ctor(1, [], secret('')) if secret else ctor
+    if null is not None and not v and v != 0:
+        return null
+    try:
+        if fmt and hasattr(v, fmt):
+            if refuse and fmt in spied:
+                return 'RAISED Unauthorized'
+            return str(getattr(v, fmt)())
+        if fmt in SPECIAL_FORMATS:
+            return None
+        if fmt == '':
+            return ''
+        return str(fmt % v)
+    except Exception as e:  # noqa
+        return 'RAISED %s' % type(e).__name__
+
+
+def format_cases(r, tier):
+    n_random = 6 if tier != 'thorough' else 120
+    for kind, (ctor, spied, secret) in VALUE_KINDS.items():
+        fmts = list(spied) + ['nosuch', '', 'upper', 'real', 'hex'] + list(SPECIAL_FORMATS) + list(C_FORMATS) + list(DATE_FORMATS)
+        fmts += [random_format(r) for _ in range(n_random)]
+        for fmt in dict.fromkeys(fmts):
+            if '"' in fmt:
+                continue
+            if fmt == 'sql-quote' and secret:
+                continue        # finding C05-special-format-attr: this special format calls value.replace() directly
+            for null in (None, '-'):
+                for refuse in ((True, False) if secret else (False,)):
+                    forms = list(FORMAT_FORMS) if (tier == 'thorough' or fmt in DATE_FORMATS or fmt in spied[:3]) else \
+                        ['name', r.choice(list(FORMAT_FORMS)[1:])]
+                    for form in forms:
+                        yield kind, fmt, null, refuse, form
+
+
+def render_format(kind, fmt, null, refuse, form, m, options=None):
+    ctor, spied, secret = VALUE_KINDS[kind]
+    src, mk_ns = FORMAT_FORMS[form]
+    src = src.replace('FMT', options if options is not None else 'fmt="%s"%s' % (fmt, '' if null is None else ' null="%s"' % null))
+
+    def build(log, m_, n_):
+        v = ctor(1, log, secret(m_ if refuse else '')) if secret else ctor
+        return None, mk_ns(v, log), ({(1, name) for name in spied} if refuse else set()), set()
+    out, log, denied, _di = render_channel('', src, build, m, m)
+    return src, out, log, denied
+
+
+def part_f(res, r, tier):
+    for kind, fmt, null, refuse, form in format_cases(r, tier):
+        want = format_reference(kind, fmt, null, refuse)
+        problems, outs = [], []
+        for m in (MARK_A, MARK_B) if refuse else ('',):
+            src, out, log, denied = render_format(kind, fmt, null, refuse, form, m)
+            res.evaluations += 1
+            outs.append(out)
+            if want is not None and out != want:
+                problems.append('rendered %r; the documented meaning of fmt= (method of the value through the guard, special format, '
+                                'empty format, else Python\'s own %r %% value) gives %r' % (out, fmt, want))
+            if 'MARKER' in out or (kind == 'date' and refuse and any(x in out for x in DATE_SECRETS)):
+                problems.append('what a refused method of the value says reached the output: %r' % (out,))
+            problems += [p[1] for p in read_problems(log)]
+            for ev in log:
+                if ev[0] == 'called' and (ev[1], ev[2]) in denied:
+                    problems.append('the method %r of the value, which the guard refuses, was called' % (ev[2],))
+        if len(set(outs)) != 1:
+            problems.append('the output depends on what the refused methods of the value say: %r vs %r' % (outs[0], outs[1]))
+        res.count('format=%s' % ('method' if fmt in VALUE_KINDS[kind][1] else 'special' if fmt in SPECIAL_FORMATS else 'empty' if not fmt
+                                 else 'no-percent' if '%' not in fmt else 'c-style-valid' if not (want or '').startswith('RAISED')
+                                 else 'c-style-invalid'))
+        if refuse or VALUE_KINDS[kind][1] == ():
+            res.nt(('format', kind, fmt, null, refuse, form))
+        if problems:
+            res.oracle_fail.append({'case': {'part': 'F', 'value': kind, 'fmt': fmt, 'null': null, 'guard_refuses_methods': refuse,
+                                             'form': form, 'source': src},
+                                    'what': '%s on a %s value (%s): %s' % (src, kind, 'the guard refuses every method of the value' if refuse
+                                                                           else 'nothing refused', '; '.join(sorted(set(problems))[:4]))})
+
+
+def part_f_options(res):
+    """the options of dtml-var other than fmt= on values that HAVE attributes of the options' names"""
+    for kind, (ctor, spied, secret) in VALUE_KINDS.items():
+        if kind in ('none', 'empty-text', 'falsy'):
+            continue
+        text = str(ctor(1, [], secret('')) if secret else ctor)
+        for options, ref in VAR_OPTIONS.items():
+            want = ref(text) if ref else None
+            for refuse in ((True, False) if secret else (False,)):
+                for form in ('name', 'with-attr', 'in-item', 'expr'):
+                    problems, outs = [], []
+                    for m in (MARK_A, MARK_B) if refuse else ('',):
+                        src, out, log, denied = render_format(kind, None, None, refuse, form, m, options)
+                        res.evaluations += 1
+                        outs.append(out)
+                        if want is not None and out != want:
+                            problems.append('rendered %r; the option works on the text of the value, %r: %r' % (out, text, want))
+                        if 'MARKER' in out:
+                            problems.append('what a refused method of the value says reached the output: %r' % (out,))
+                        problems += [p[1] for p in read_problems(log)]
+                        problems += ['the method %r of the value, which the guard refuses, was called' % (ev[2],)
+                                     for ev in log if ev[0] == 'called' and (ev[1], ev[2]) in denied]
+                    if len(set(outs)) != 1:
+                        problems.append('the output depends on what the refused methods of the value say: %r vs %r' % (outs[0], outs[1]))
+                    res.count('format=other-option')
+                    res.nt(('var-option', kind, options, refuse, form))
+                    if problems:
+                        res.oracle_fail.append({'case': {'part': 'F', 'value': kind, 'options': options, 'guard_refuses_methods': refuse,
+                                                         'form': form, 'source': src},
+                                                'what': '%s on a %s value: %s' % (src, kind, '; '.join(sorted(set(problems))[:4]))})
+
+
+# --------------------------------------------------------------------------- G: two template classes in one rendering
+
+def guarded_reads(o, l, which=(0, 1, 2)):
+    """refused data read in four ways; what the guard allows of it is 'ok…' / DENIED"""
+    T = '<dtml-try>%s<dtml-except>DENIED</dtml-try>'
+    raising = ['<dtml-var "%s.secret">' % o, '<dtml-with %s><dtml-var secret></dtml-with>' % o, '<dtml-var %s fmt=secretm>' % o]
+    return '(<dtml-in %s skip_unauthorized><dtml-var pub></dtml-in>' % l + ''.join('|' + T % raising[i] for i in which) + ')'
+
+
+# what the caller reads after the call (each refusal costs a formatted traceback in dtml-try: one raising read per rendering, in
+# rotation; the other template's body 'reads-guarded' does all of them)
+TAILS = [guarded_reads('c05o', 'c05ol', (i,)) for i in range(3)]
+# what the other template does: source in the syntax of its class, the text that stands for its call in the reference
+SUB_BODIES = {
+    'static': {'html': '[sub]', 'string': '[sub]'},
+    'reads-client': {'html': '[<dtml-var c05pub>]', 'string': '[%(c05pub)s]'},
+    'blocks': {'html': '<dtml-in c05l>(<dtml-var sequence-item>)</dtml-in><dtml-with c05cl>{<dtml-var c05pub>}</dtml-with>',
+               'string': '%(in c05l)[(%(sequence-item)s)%(in c05l)]%(with c05cl)[{%(c05pub)s}%(with c05cl)]'},
+    'raises': {'html': '[a<dtml-raise ValueError>b</dtml-raise>]', 'string': '[a%(raise ValueError)[b%(raise ValueError)]]', 'raises': True},
+    'returns': {'html': '[a<dtml-return "\'R\'">b]', 'inline': 'R'},
+    'reads-guarded': {'html': '[' + guarded_reads('c05p', 'c05pl') + ']'},
+}
+SUB_KINDS = ('html', 'string', 'other-guard', 'nested', 'same')
+SUB_HOWS = {
+    # how -> (call, reference(inline text of the sub-template) or None = "the same call with a template of the caller's class")
+    'name': ('<dtml-var c05sub>', lambda t, b: t),
+    'expr': ('<dtml-var "c05sub(None, _)">', lambda t, b: t),
+    'expr-client': ('<dtml-var "c05sub(c05cl, _)">', lambda t, b: '<dtml-with c05cl>%s</dtml-with>' % t),
+    'expr-client-tuple': ('<dtml-var "c05sub((c05cl, c05cl2), _)">', lambda t, b: '<dtml-with c05cl><dtml-with c05cl2>%s</dtml-with></dtml-with>' % t),
+    'render-function': ('<dtml-var "_.render(c05sub)">', lambda t, b: t),
+    'subscript': ('<dtml-var "_[\'c05sub\']">', lambda t, b: t),
+    'getitem-function': ('<dtml-var "_.getitem(\'c05sub\', 1)">', lambda t, b: t),
+    'with-namespace': ('<dtml-with "_.namespace(c05q=1)"><dtml-var c05sub></dtml-with>', lambda t, b: t),
+    'expr-keywords': ('<dtml-var "c05sub(None, _, c05pub=\'kw\')">', lambda t, b: '<dtml-let c05pub="\'kw\'">%s</dtml-let>' % t),
+    'loop-item': ('<dtml-in c05subs><dtml-var sequence-item></dtml-in>', lambda t, b: '<dtml-in c05subs>%s</dtml-in>' % t),
+    'call': ('<dtml-call c05sub>', lambda t, b: t if b.get('raises') else ''),
+    'if': ('<dtml-if c05sub>[t]<dtml-else>[f]</dtml-if>', lambda t, b: t if b.get('raises') else '[t]'),
+    'let': ('<dtml-let c05z=c05sub><dtml-var c05z></dtml-let>', lambda t, b: t),
+    'tree-header': ('<dtml-tree c05t header=c05sub>.</dtml-tree>', None),
+    'tree-footer': ('<dtml-tree c05t footer=c05sub>.</dtml-tree>', None),
+    'tree-expand': ('<dtml-tree c05t expand=c05sub>.</dtml-tree>', None),
+    'tree-leaves': ('<dtml-tree c05leaf leaves=c05sub>.</dtml-tree>', None),
+}
+BASE_CHANNELS = ('client', 'with-only', 'expr-attr', 'in-body', 'in-skip', 'fmt-method', 'tree-skip sort=key', 'tree-this-skip')
+
+
+class Pub:
+    """a client without secrets"""
+
+    def __init__(self, **kw):
+        self.__dict__.update(kw)
+
+
+def sub_positions(src):
+    """before every tag of the source, and at its end; not inside a <dtml-with … only> block (the names of the call are not
+    visible there, whatever class the template has)"""
+    pos = [mm.start() for mm in re.finditer(r'</?dtml-', src)] + [len(src)]
+    mm = re.search(r'<dtml-with [^>]* only>', src)
+    if mm:
+        end = src.rindex('</dtml-with>')
+        pos = [p for p in pos if p <= mm.start() or p > end]
+    return pos
+
+
+def sub_applicable(how, kind, body):
+    if kind == 'string' and 'string' not in SUB_BODIES[body]:
+        return False
+    return True
+
+
+def render_two(src, build, m, n, pos, how, kind, body, tail=0, reference=False):
+    """the channel's template with the call of another template at `pos`, followed by reads of refused data;
+    reference: the same source with the text of the other template in place of the call (tree documents: a template of the
+    caller's own class), rendered by a fresh object of the caller's class with data of its own"""
+    import DocumentTemplate
+    b = SUB_BODIES[body]
+    call, inline = SUB_HOWS[how]
+    log = HookLog()
+    client, ns, denied, denied_items = build(log, m, n)
+    quiet = []                  # the tree of the call and the clients of the other template: nothing of theirs is judged
+    ns = dict(ns)
+    ns.update(c05o=Spy(77, log, secret=m, pub='p77', secretm=(lambda: m)), c05ol=[Spy(78, log, pub=n), Spy(79, log, pub='ok79')],
+              c05p=Spy(87, log, secret=n, pub='p87', secretm=(lambda: n)), c05pl=[Spy(88, log, pub=m), Spy(89, log, pub='ok89')],
+              c05pub='np', c05cl=Pub(c05pub='cp', c05x='x1'), c05cl2=Pub(c05x='x2'), c05l=['i', 'j'],
+              c05t=Node(901, quiet, 'c05t', kids=[Node(902, quiet, 'c05kid')]), c05leaf=Node(903, quiet, 'c05leaf'))
+    for k, v in tree_ns().items():
+        ns.setdefault(k, v)
+    denied = set(denied) | {(77, 'secret'), (77, 'secretm'), (87, 'secret'), (87, 'secretm')}
+    denied_items = set(denied_items) | {78, 88}
+    cls = guarded_class(log, denied, denied_items)
+    nested = '<dtml-var c05sub2>' if kind == 'nested' else ''
+    text = b['inline'] if 'inline' in b else ('(s2)' if nested else '') + b['html']     # dtml-return discards the text before it
+    ns['c05subs'] = ['in place of the other template']
+    if reference and inline is not None:
+        piece = inline(text, b)
+    else:
+        piece = call
+        k = 'same' if reference else kind
+        sub_cls = {'html': DocumentTemplate.HTML, 'string': DocumentTemplate.String, 'nested': DocumentTemplate.HTML, 'same': cls,
+                   'other-guard': guarded_class([], set(), set())}[k]
+        ns['c05sub'] = sub_cls(b['string'] if k == 'string' else nested + b['html'])
+        ns['c05sub2'] = guarded_class([], set(), set())('(s2)')
+        ns['c05subs'] = [ns['c05sub']]
+    if b.get('raises'):
+        piece = '<dtml-try>%s<dtml-except>[x]</dtml-try>' % piece
+    full = src[:pos] + piece + TAILS[tail % len(TAILS)] + src[pos:]
+    try:
+        out = cls(full)(client, ns)
+    except Exception as e:  # noqa
+        out = 'RAISED %s' % type(e).__name__
+    return full, out, log
+
+
+def two_class_plans(r, tier):
+    """(channel, position, how, kind, body, at the first tag of a base channel).  At the first tag of the base channels'
+    sources: every way of calling x every class and every class x every body, the third coordinate rotating (thorough: the
+    whole product); every other position of every channel: a rotating selection of the product (thorough: many more)"""
+    chans = channels()
+    product = [(h, k, b) for h in SUB_HOWS for k in SUB_KINDS for b in SUB_BODIES if sub_applicable(h, k, b)]
+    per_position = 1 if tier != 'thorough' else 40
+    rot = r.randrange(len(product))
+    for name, (src, build, finding) in chans.items():
+        for pos in sub_positions(src):
+            if name in BASE_CHANNELS and pos == sub_positions(src)[0]:
+                if tier == 'thorough':
+                    combos = product
+                else:
+                    bodies, kinds, hows = list(SUB_BODIES), list(SUB_KINDS), list(SUB_HOWS)
+                    combos = []
+                    for i, h in enumerate(hows):
+                        combos += [(h, k, bodies[(i + j + rot) % len(bodies)]) for j, k in enumerate(kinds)]
+                    for i, k in enumerate(kinds):
+                        combos += [(hows[(3 * i + j + rot) % len(hows)], k, b) for j, b in enumerate(bodies)]
+                    combos = [c for c in dict.fromkeys(combos) if sub_applicable(*c)]
+                    rot += 1
+            else:
+                combos = [product[(rot + i * 37) % len(product)] for i in range(per_position)]
+                rot += per_position * 37 + 1
+            for h, k, b in combos:
+                yield name, pos, h, k, b, name in BASE_CHANNELS and pos == sub_positions(src)[0]
+
+
+def part_g(res, r, tier):
+    chans = channels()
+    for idx, (name, pos, how, kind, body, whole) in enumerate(two_class_plans(r, tier)):
+        src, build, finding = chans[name]
+        # both marker assignments where the whole product is explored; elsewhere one (the reference and the marker search decide)
+        swaps = ((MARK_A, MARK_B), (MARK_B, MARK_A)) if whole or tier == 'thorough' else ((MARK_A, MARK_B),)
+        runs = [render_two(src, build, m, n, pos, how, kind, body, idx) for m, n in swaps]
+        full_ref, want, _l = render_two(src, build, MARK_A, MARK_B, pos, how, kind, body, idx, reference=True)
+        res.evaluations += 1
+        res.count('two_classes=%s/%s' % (how, kind))
+        full, outs = runs[0][0], [x[1] for x in runs]
+        if '(ok79|DENIED)' in outs[0] or '[sub]' in outs[0] or '[x]' in outs[0]:
+            res.nt(('two-classes', name, pos, how, kind, body))
+        problems = []
+        if len(set(outs)) != 1:
+            problems.append(('leak', 'the output depends on data the guard refuses: %r vs %r' % (outs[0], outs[1])))
+        if any('MARKER' in o for o in outs):
+            problems.append(('leak', 'refused data reached the output: %r' % ([o for o in outs if 'MARKER' in o][0],)))
+        if outs[0] != want:
+            problems.append(('two-classes', 'rendered %r; with %s in place of the call (%s) a fresh template of the caller\'s class gives %r'
+                             % (outs[0], 'the other template\'s text' if SUB_HOWS[how][1] else 'a template of the caller\'s own class',
+                                full_ref, want)))
+        problems += read_problems(runs[0][2])
+        judge(res, '%s + a %s template (%s) rendered %s before position %d' % (name, kind, body, how, pos), full, finding, problems,
+              {'part': 'G', 'position': pos, 'how': how, 'other_class': kind, 'other_body': body})
+
+
 def part_b(res):
     from DocumentTemplate import HTML
     log = []
@@ -621,11 +1037,74 @@ def part_b(res):
                 res.oracle_fail.append({'case': {'source': src}, 'what': 'unexpected %s: %s' % (type(e).__name__, e)})
 
 
-def part_c(res, r, n, have_driver):
+def mixed_guard(case):
+    """proggen.recording_guard for a rendering with SEVERAL template classes: the template that the application calls (the first
+    one constructed) has the recording guard; the others stand for objects of a class without guards ('plain': their
+    guarded_getattr / guarded_getitem are None) or with a guard of their own that allows everything and records nothing"""
+    def make(world):
+        import itertools
+        base = proggen.recording_guard(case.get('denied', []), case.get('deniedItems', []))(world)
+        ga, gi = base.guarded_getattr, base.guarded_getitem
+        counter = itertools.count()
+        marker = object()
+
+        def allow_attr(inst, name, default=marker):
+            return getattr(inst, name) if default is marker else getattr(inst, name, default)
+
+        class Mixed(base):
+            def __init__(self, *args, **kw):
+                self.__dict__['_c05_kind'] = 'called' if next(counter) == case['main'] else case['otherClass']
+                base.__init__(self, *args, **kw)
+
+            @property
+            def guarded_getattr(self):
+                kind = self.__dict__.get('_c05_kind', 'called')
+                return ga.__get__(self) if kind == 'called' else None if kind == 'plain' else allow_attr
+
+            @property
+            def guarded_getitem(self):
+                kind = self.__dict__.get('_c05_kind', 'called')
+                return gi.__get__(self) if kind == 'called' else None if kind == 'plain' else (lambda ob, index: ob[index])
+        return Mixed
+    return make
+
+
+def run_cases_mixed(res, cases):
+    """interp.run_cases with mixed_guard on the side of the real classes (the model has one guard per rendering)"""
+    reqs = [proggen.model_req(c) for c in cases]
+    resp = []
+    if res.have_driver:
+        for i in range(0, len(reqs), 400):
+            try:
+                resp += common.run_driver(reqs[i:i + 400], timeout=600)
+            except Exception as e:  # noqa
+                if 'TimeoutExpired' not in type(e).__name__ and 'timed out' not in str(e):
+                    raise
+                resp += [None] * len(reqs[i:i + 400])
+                res.count('driver_chunk_timed_out')
+    else:
+        resp = [{}] * len(cases)
+    out = []
+    for c, rp in zip(cases, resp):
+        if rp is None:
+            continue
+        impl = proggen.run_impl(c, (), 'ValueError', guard=mixed_guard(c))
+        m = rp.get('ok') if rp else None
+        if rp and m is None:
+            raise RuntimeError('driver: %r' % (rp,))
+        out.append((c, ((), 'ValueError'), impl, m))
+    return out
+
+
+def part_c(res, r, n, have_driver, mixed=False):
     cases = []
     for _ in range(n):
         c = proggen.gen_case(r, r.choice([2, 3]), robust=r.random() < 0.5)
         c['guard'] = True
+        if mixed:
+            if r.random() < 0.5:
+                c = proggen.wrap_case(c)      # three templates: the driver that is called, the program, its sub-template
+            c['otherClass'] = r.choice(['plain', 'plain', 'other-guard'])
         # refuse some (object, attribute) pairs and some items that actually occur
         pairs, items = [], []
 
@@ -679,8 +1158,10 @@ def part_c(res, r, n, have_driver):
             t['source'] = proggen.print_blocks(t['blocks'])
         cases.append(c)
     res.have_driver = have_driver
-    for (c, plan, impl, m) in interp.run_cases(res, cases):
+    for (c, plan, impl, m) in (run_cases_mixed(res, cases) if mixed else interp.run_cases(res, cases)):
         res.evaluations += 1
+        if mixed:
+            res.count('mixed_classes=%s' % c['otherClass'])
         guards = [e for e in impl['events'] if e[0] in ('guard', 'gitem')]
         res.count('guard_events=%s' % ('0' if not guards else '1-5' if len(guards) <= 5 else '6+'))
         if any(e[0] == 'guard' and [e[1], e[2]] in c['denied'] for e in impl['events']):
@@ -693,7 +1174,7 @@ def part_c(res, r, n, have_driver):
             continue
         res.corr_checked += 1
         if d:
-            res.corr_mismatch.append({'case': dict(interp.brief(c), denied=c['denied'], deniedItems=c['deniedItems']),
+            res.corr_mismatch.append({'case': dict(interp.brief(c), denied=c['denied'], deniedItems=c['deniedItems'], **({'templates_other_than_the_called_one': c['otherClass']} if mixed else {})),
                                       'impl': {'result': impl['result'], 'guard_log': guards[:30]},
                                       'model': {'result': m['result'], 'guard_log': [e for e in m['trace'] if e[0] in ('guard', 'gitem')][:30]},
                                       'diff': d})
@@ -714,19 +1195,44 @@ def run(res, tier, have_driver):
                 'the tree-s cookie / expand_all / default; 1-3 refused items, with and without skip_unauthorized): displayed sequence == '
                 'allowed items in the order asked for, Unauthorized where a displayed item is refused; each also after a rendering in '
                 'another guard context and interrupted by one at a random event; '
+                'F: dtml-var fmt= over %d value kinds (spied objects with date- / text- / record-like methods, number-like, falsy, a real '
+                'datetime.date subclass, plain text / numbers / None) x every method of the value, unknown names, %d special formats, the '
+                'empty format, valid C-style formats, strftime-style and random %%-strings x null= x guard refuses every method / none '
+                'x 6 ways the value reaches the tag, and %d other option sets of dtml-var on values having attributes of those names: '
+                'output == the documented meaning computed in plain Python (Python\'s own %% for C-style formats), every attribute of '
+                'the value that is read was asked of the guard, no refused method called; '
+                'G: two template classes in one rendering: a call of another document template (classes: HTML, String, a class with '
+                'an allow-everything guard of its own, a plain one rendering a third, control: the caller\'s class; %d ways of rendering '
+                'it incl. expression with a client / client tuple / keywords of its own, _.render, _[...], dtml-call / -if / -let / -in, '
+                'dtml-tree header / footer / leaves / expand documents; %d bodies incl. raising, returning and reading guarded data '
+                'itself) spliced in before every tag of every channel of A, followed by reads of refused data through an expression, a '
+                'with-object, a skipping loop and fmt=: output == the source with the other template\'s text in place of the call on a '
+                'fresh object of the caller\'s class, no marker, every read asked (the first tag of %d base channels gets every way x '
+                'every class and every class x every body; thorough: the whole product); '
                 'B: underscore names through 4 lookup forms x {plain, guarded} class and 5 restricted expressions; '
                 'C: random programs (all block tags, nesting <= 3) with the guard installed, random refused (object, attribute) pairs, '
                 'refused items and skip_unauthorized: results + call traces + ordered guard log vs the model; non-trivial = '
                 'channels / interruption points that were reached / collections with a refused item / programs in which a refusal '
-                'actually happened' % (len(channels()), 2 * N_COLLECTIONS[tier if tier in N_COLLECTIONS else 'quick']))
+                'actually happened; C-mixed: the same kind of programs (also wrapped in a driver template: three templates) with every '
+                'template other than the called one standing for a class without guards / with an allow-everything guard of its own, '
+                'against the model\'s single guard per rendering'
+                % (len(channels()), 2 * N_COLLECTIONS[tier if tier in N_COLLECTIONS else 'quick'], len(VALUE_KINDS), len(SPECIAL_FORMATS),
+                   len(VAR_OPTIONS), len(SUB_HOWS), len(SUB_BODIES), len(BASE_CHANNELS)))
     part_a(res)
     part_b(res)
     part_d(res, common.rng('C05/D'), tier)
     part_e(res, common.rng('C05/E'), tier)
+    part_f(res, common.rng('C05/F'), tier)
+    part_f_options(res)
+    part_g(res, common.rng('C05/G'), tier)
     part_c(res, r, 500 if tier == 'quick' else 8000, have_driver)
+    part_c(res, common.rng('C05/C-mixed'), 200 if tier == 'quick' else 3000, have_driver, mixed=True)
     res.partial.append('dtml-tree reads ids / urls (tpId, tpURL) and its sort= key with plain getattr, and expand_all walks the branches without '
                        'the item guard (ids of refused nodes end up in the tree-s cookie): the tree nodes of parts A / D / E keep id and sort key '
                        'out of the spied attributes, so these reads are not judged')
+    res.partial.append('left out of the format grid (known findings, replayed by findings_probe): the url option (C05-var-url), %(key)s '
+                       'formats on record-like values (C05-fmt-mapping-key), fmt=sql-quote / structured-text / restructured-text on '
+                       'non-text values (C05-special-format-attr)')
     res.partial.append('global non-interference of a whole rendering is decided by the marker oracle; the Lean side proves the guard '
                        'discipline of each read site (instance lookup, expression attribute, dtml-in item) and local '
                        'non-interference; the unguarded channels are known findings')
@@ -740,6 +1246,9 @@ def search_more(res, tier):
     part_b(res2)
     part_d(res2, common.rng('C05/D'), tier)
     part_e(res2, common.rng('C05/E'), tier)
+    part_f(res2, common.rng('C05/F'), tier)
+    part_f_options(res2)
+    part_g(res2, common.rng('C05/G'), tier)
     return res2.oracle_fail
 
 
